@@ -27,6 +27,10 @@ class Ctx:
             an = cls(self.prog, self.roles, self.sigs, gen_cancel=gen_cancel, gen_bodyexc=gen_bodyexc, **kw)
             ip = Interp(self.prog, an)
             out = ip.run(func, bindings=bindings, self_cls=self_cls)
+            cut = ip.__dict__.get('cutoffs')
+            if cut:
+                raise AnalysisError("helpers nested more than %d calls deep below %s (%s): what they do is not followed, "
+                                    "nothing can be concluded" % (an.max_inline, func.qualname, ", ".join(sorted(cut)[:4])))
             self.stats['functions_analysed'].add(func.qualname)
             self.stats['functions_analysed'] |= ip.inlined
             self.stats['states'] += ip.nstates
@@ -35,7 +39,14 @@ class Ctx:
         return self._cache[key]
 
     def run(self, **kw):
-        return self.explore(self.roles.RUN, **kw)
+        res = self.explore(self.roles.RUN, **kw)
+        an = res[0]
+        if not any(e.data.get('tkind') in ('run', 'bare') for e in an.events('SPAWN')):
+            # every rule about the run reasons from the places where it gives a job its task: when the exploration
+            # meets none (the task is made somewhere it does not follow) there is nothing to reason from
+            raise AnalysisError("the exploration of %s meets no place where a job is given its task: the rules "
+                                "about the run cannot read this form" % self.roles.RUN.qualname)
+        return res
 
     def wrap(self, gen_cancel=False, gen_bodyexc=False, **kw):
         """the window wrapper, explored through its factory: the factory body is walked first (so that
